@@ -180,8 +180,8 @@ class AdaptationSet(ObjectWithFields):
             # availabilityStartTime, whatever the numbering of the stored file
             self.presentationTimeOffset = 0
         else:
-            self.presentationTimeOffset = int(
-                (self.start_number - 1) * self.representations[0].segment_duration)
+            # the decode time of the first stored fragment
+            self.presentationTimeOffset = self.representations[0].start_time
 
         if self.content_type in {'audio', 'text'}:
             for rep in self.representations:
